@@ -514,7 +514,7 @@ def check_shims(ctx, P):
     else:
         isSec = field_load("tv_sec")
         isNs = field_load("tv_nsec")
-        for sec, ns in ((0, 0), (0, 1), (0, 999), (0, 1000), (0, 999999999), (2, 500000000), (100000, 1)):
+        for sec, ns in ((0, 0), (0, 1), (0, 999), (0, 1000), (0, 999999999), (2, 500000000), (100000, 1), (2 ** 32, 0), (2 ** 32 + 7, 5), (2 ** 40, 0)):
             atom = atom_from([(isSec, sec), (isNs, ns)])
             try:
                 s_ = ev(fn, fn.args(cs[0])[0], atom)
